@@ -21,8 +21,13 @@ func Index(json any) any {
 	classIndex := make(map[string][]string)
 	nodeIndex := make(types.ObjectMap)
 
-	g := json.(types.ObjectMap)["@graph"]
-	nodes := g.([]any)
+	// a document without nodes flattens to an empty list (or to an object without @graph): it has nothing to index
+	var nodes []any
+	if doc, ok := json.(types.ObjectMap); ok {
+		if g, ok := doc["@graph"].([]any); ok {
+			nodes = g
+		}
+	}
 
 	for _, nn := range nodes {
 		n := nn.(types.ObjectMap)
